@@ -1,6 +1,6 @@
 (* C10 (layercake part): a command reports success only if all of its effects were applied. *)
 From LC Require Import Lib.Bytes Lib.Lex Lib.Fields Lib.PathM Gen.Consts
-  Model.MountInfo Model.FsTree Model.Kernel Model.Layers Model.StageOut Cases.Verdict Cases.LC.
+  Model.MountInfo Model.FsTree Model.Kernel Model.Layers Model.StageOut Model.OutFile Cases.Verdict Cases.LC.
 Open Scope N_scope.
 Import LC LCS.
 
@@ -19,7 +19,13 @@ Record scase := MkS {
   sc_mode : N;          (* 0..3 -list system/installed/stage/stage -files; 4..7 -generate none/gzip/bzip2/xz *)
   sc_sink : sink;
   sc_size : N;          (* bytes of the complete output of the same command without a fault *)
-  sc_exit_ok : bool }.  (* observed: exit status 0 *)
+  sc_prior : option N;  (* the -o path of the run under test held a file of this length already; None =
+                           the path did not exist *)
+  sc_exit_ok : bool;    (* observed: exit status 0 *)
+  sc_len : option N }.  (* observed: length of the file named by -o after the run; None = the output
+                           did not go to a regular file of its own (/dev/full, standard output), or
+                           its length is no function of the input (compressed: synthesised members
+                           carry the clock of the run; those files are read back by the C07 check) *)
 
 (* the property: a write error at any byte offset (or a failing compressor) yields a non-zero exit *)
 Definition s_fault_reached (c : scase) : bool :=
@@ -29,19 +35,31 @@ Definition s_fault_reached (c : scase) : bool :=
   | SLimit k => k <? sc_size c
   | SBadCompressor => true
   end.
-Definition s_spec (c : scase) (exit_ok : bool) : bool := negb (s_fault_reached c) || negb exit_ok.
+(* ... and an exit status of 0 means the complete output was written: the file named by -o then
+   holds the complete output and nothing else, whatever the path held before the run *)
+Definition s_file_ok (c : scase) (exit_ok : bool) (len : option N) : bool :=
+  match len with Some n => negb exit_ok || (n =? sc_size c) | None => true end.
+Definition s_spec (c : scase) (exit_ok : bool) (len : option N) : bool :=
+  (negb (s_fault_reached c) || negb exit_ok) && s_file_ok c exit_ok len.
 Definition s_model (c : scase) : bool := exit_ok_by_size (sc_sink c) (sc_size c).
+(* the file after a successful run (Model/OutFile.v: create-or-truncate, then sc_size bytes from
+   offset 0); after a failed run the model says nothing about the file *)
+Definition s_model_len (c : scase) : option N :=
+  match sc_len c with
+  | Some n => Some (if s_model c then out_len (sc_prior c) (sc_size c) else n)
+  | None => None
+  end.
 
 Inductive case := CIn (c : LC.case) | CStage (s : scase).
 
 Definition spec (c : case) : bool :=
   match c with
   | CIn c => along_views (step_spec (c_cfg c)) (w0 c) (c_steps c)
-  | CStage s => s_spec s (sc_exit_ok s)
+  | CStage s => s_spec s (sc_exit_ok s) (sc_len s)
   end.
 Definition wf (c : case) : bool := match c with CIn c => LC.wf c | CStage _ => true end.
 Definition kf (c : case) : N := 0.
 Definition corr (c : case) : bool :=
-  match c with CIn c => LC.corr c | CStage s => Bool.eqb (s_model s) (sc_exit_ok s) end.
+  match c with CIn c => LC.corr c | CStage s => Bool.eqb (s_model s) (sc_exit_ok s) && opt_beq N.eqb (s_model_len s) (sc_len s) end.
 Definition verdict (c : case) : N := mkverdict (wf c) (corr c) (spec c) (kf c).
 End C10.
